@@ -8,5 +8,6 @@ func steps() int64         { return 0 }
 func stepBudgetHit() bool  { return false }
 
 func setYieldHook(f func(string)) bool { return false }
-func globalsDump() string               { return "" }
-func disableStepHook() {}
+func globalsDump() string              { return "" }
+func disableStepHook()                 {}
+func setBlockHook(f func())            {}
